@@ -5,6 +5,7 @@ import (
 	"fmt"
 	"os"
 	"path/filepath"
+	"runtime"
 	"strings"
 	"sync"
 	"testing"
@@ -26,6 +27,8 @@ type c06Case struct {
 	ShareObjs bool         `json:"shareObjs"` // duplicates of the same spec use the same recipient object
 	Perturb   int          `json:"perturb"`   // tape read to perturb (mod number of reads)
 	Segs      []int        `json:"segs"`
+	// Procs > 0: GOMAXPROCS while the file is written (work split by processor count)
+	Procs int `json:"procs,omitempty"`
 }
 
 func c06BuildRecs(p *hx.Pool, specs []hx.RecSpec, share bool) []age.Recipient {
@@ -74,6 +77,9 @@ func c06ReadLens(recs []hx.RecSpec) []int {
 }
 
 func c06Check(c c06Case, st *stats.Run) error {
+	if c.Procs > 0 {
+		defer runtime.GOMAXPROCS(runtime.GOMAXPROCS(c.Procs))
+	}
 	p := hx.ThePool()
 	plain := hx.PRG(3, c.PlainLen)
 	recs := c06BuildRecs(p, c.Recs, c.ShareObjs)
@@ -819,6 +825,19 @@ func TestC06(t *testing.T) {
 			yield(c06Case{TapeSeed: uint64(900 + n), PlainLen: 10, Recs: recs, Perturb: 127 + k})
 		}
 		s.St.Exhaust("128, 130 and 300 X25519 recipients in one Encrypt", 3)
+	}, func(c c06Case) error { return c06Check(c, s.St) })
+	pbt.Each(s, "tape-accounting", func(yield func(c06Case)) {
+		// many chunks handed over in one Write, with few and with many processors
+		n := 0
+		for _, chunks := range []int{5, 6, 7, 10, 19, 22, 35, 70} {
+			for _, procs := range []int{2, 3, 4, 16} {
+				if s.Mine(n) {
+					yield(c06Case{TapeSeed: uint64(50 + n), PlainLen: chunks*chunk + 100, Recs: []hx.RecSpec{{Kind: "x25519", Idx: 0}}, Procs: procs})
+				}
+				n++
+			}
+		}
+		s.St.Exhaust("plaintexts of 5..70 chunks written in a single Write under GOMAXPROCS 2, 3, 4 and 16: every chunk opens under exactly its own counter", int64(n))
 	}, func(c c06Case) error { return c06Check(c, s.St) })
 	pbt.Each(s, "long-payload", func(yield func(c06Long)) {
 		if s.Shard == 0 {
